@@ -136,6 +136,16 @@ func c02SchedSpecs(quick bool) []*EngSpec {
 		{Name: "cancel-vs-cancel", Cfg: cfg, Fine: true, Setup: []Step{C(L(9, 1, 1, 0, 10, 0, 0)), C(L(8, 1, 2, 5, 10, 0, 0))},
 			Threads: [][]Step{{cancel(1, 2)}, {cancel(2, 2)}}},
 	}
+	// an UNLOCK for key 1 races the recycling of key 1's manager: the other thread releases key 1's only hold and
+	// then takes eight fresh keys with the same LockId, so that the pooled manager object is handed out again
+	// (persist-immediately holds with expiry > 5 s sit in the long expiry table: their unlock frees the lock object
+	// and pools the key's manager at once instead of leaving a tombstone for the wheel)
+	recycle := []Step{C(U(2, 1, 5))}
+	for k := byte(2); k <= 12; k++ {
+		recycle = append(recycle, C(withEF(L(10+k, k, 6, 0, 30, 0, 0), efZeroAof)))
+	}
+	specs = append(specs, &EngSpec{Name: "unlock-vs-key-manager-recycling", Cfg: cfg, Fine: true, Setup: []Step{C(withEF(L(9, 1, 5, 0, 30, 0, 0), efZeroAof))},
+		Threads: [][]Step{{C(U(1, 1, 6))}, recycle}})
 	if !quick {
 		specs = append(specs,
 			&EngSpec{Name: "unlock-cancel-newcomer", Cfg: cfg, Fine: true, Setup: []Step{C(L(9, 1, 1, 0, 10, 0, 0)), C(L(8, 1, 2, 5, 10, 0, 0))},
@@ -149,7 +159,12 @@ func c02SchedSpecs(quick bool) []*EngSpec {
 func init() {
 	comboCheck(comboDef{id: "C02", level: "model_checking",
 		sched: func(q bool) *SchedPlan {
-			return &SchedPlan{Specs: c02SchedSpecs(q), Oracles: []Oracle{OracleLinearizable("C02")}, Bound: schedBound, MaxExec: schedCap(4000)}
+			return &SchedPlan{Specs: c02SchedSpecs(q), Oracles: []Oracle{OracleLinearizable("C02")}, Bound: func(s *EngSpec, q bool) int {
+				if s.Name == "unlock-vs-key-manager-recycling" {
+					return schedBound(s, q) - 1 // one long thread: the window needs a single preemption
+				}
+				return schedBound(s, q)
+			}, MaxExec: schedCap(4000)}
 		},
 		seq: func(q bool) *SeqPlan {
 			return &SeqPlan{Specs: c02Specs(q), Oracles: []SeqOracle{OracleRef(RefOpts{Results: true, State: true, Counts: true, Prefix: "C02"})}}
